@@ -8,7 +8,7 @@ from ..program import AnalysisError, Program, norm, walk_local, ancestors
 from ..report import Check
 from ..types import Types
 from ..util import calls_in, fkey, is_method_call, node_calls, path_of, recv_of, where
-from .mgr import comprehension_facts, MGR, CORE, Dispatch, const_resolver, self_call
+from .mgr import module_writers, comprehension_facts, MGR, CORE, Dispatch, const_resolver, self_call
 
 CONTROL_TYPES = {"MT_CONNECT", "MT_CONNECT_V2", "MT_DISCONNECT", "MT_SUBSCRIBE", "MT_UNSUBSCRIBE", "MT_PAUSE_SUBSCRIPTION",
                  "MT_RESUME_SUBSCRIPTION", "MT_CLIENT_SET_NAME", "MT_MODULE_READY"}
@@ -21,7 +21,7 @@ def recipient_sends(prog, ty, f):
     out = []
     for n in g.nodes:
         for c in node_calls(n):
-            if is_method_call(c, "send_message"):
+            if is_method_call(c, module_writers(prog)):
                 t = ty.expr(f, recv_of(c))
                 if t.kind == "cls" and t.cls is mc:
                     out.append((n, c, path_of(recv_of(c))))
@@ -254,17 +254,36 @@ def run(prog: Program, chk: Check):
     rgs = flow.guard_states(rg)
     rcm = guards.copy_map(runf.node)
     pmn = [n for n in rg.nodes if any(self_call("process_message")(c) for c in node_calls(n))]
-    rd = [n for n in rg.nodes if n.kind == "stmt" and isinstance(n.ast, ast.Assign) and any(self_call("read_message")(c) for c in node_calls(n))]
-    okrun = len(pmn) == 1 and len(rd) == 1
+    rdn = [n for n in rg.nodes if any(self_call("read_message")(c) for c in node_calls(n))]
+    okrun = len(pmn) == 1 and len(rdn) == 1
     if okrun:
-        var = path_of(rd[0].ast.targets[0])
-        # from the read, the only way to skip process_message is `not got_msg`
-        esc = flow.must_follow(rg, rd, pmn, exits=("exit", "raise"), follow=lambda e: not (norm(e.cond) == var and e.pol is False) if e.cond is not None else e.kind != "exc")
-        # restrict to the same loop iteration: a path that goes round the loop head counts as escaping
-        tests = [n for n in rg.nodes if n.kind == "test" and norm(n.ast) == var]
-        okrun = bool(tests) and all(any(e.kind == "true" and pmn[0].id in flow.reach(rg, [e.dst], blocked=set()) for e in rg.succ[t.id]) for t in tests)
-        facts_ok = not guards.any_path_implies(rgs.at(pmn[0]), guards.parse(var))
-        okrun = okrun and facts_ok
+        rcall = [c for c in node_calls(rdn[0]) if self_call("read_message")(c)][0]
+        # the read's result: a local it is assigned to, or the call expression itself when it is tested in place
+        if rdn[0].kind == "stmt" and isinstance(rdn[0].ast, ast.Assign) and rdn[0].ast.value is rcall:
+            atom = path_of(rdn[0].ast.targets[0])
+        else:
+            atom = norm(rcall)
+        # when the read is tested in place (`if src and self.read_message(s):`) it is evaluated only under its left context
+        ctx = ["(" + norm(x) + ")" for x, pol in rgs.at_expr(rdn[0], rcall)[0][len(rgs.at(rdn[0])[0]):] if pol] if rgs.at(rdn[0]) else []
+        # (1) process_message only for a completely read frame
+        facts_ok = atom is not None and not guards.any_path_implies(rgs.at(pmn[0]), guards.parse(atom))
+        # (2) every completely read frame is processed: a way from the read to the next iteration / the exit that skips
+        #     process_message is taken only when the read returned falsy
+        pm_ids = {pmn[0].id}
+        gsk = flow.guard_states(rg, edge_filter=lambda e: not (e.src in pm_ids and e.kind != "exc"))
+        lp = next((a for a in ancestors(rcall) if isinstance(a, (ast.For, ast.While))), None)
+        skipped_ok = lp is not None
+        if lp is not None:
+            head = next(n for n in rg.nodes if n.kind in ("for", "test") and (n.ast is lp or n.ast is getattr(lp, "test", None)))
+            body_ids = {n.id for n in rg.nodes if n.ast is not None and any(a is lp for a in ancestors(n.ast))}
+            after_read = flow.reach(rg, [rdn[0].id], blocked={head.id}, follow=lambda e: e.kind != "exc" and e.src not in pm_ids) - {head.id}
+            for e in rg.pred[head.id]:
+                if e.src not in body_ids or e.src not in after_read or e.kind == "exc" or e.src in pm_ids:
+                    continue
+                for p_ in gsk.after_edge(e):
+                    if guards.any_path_implies([p_], guards.parse(f"not ({' and '.join(ctx + [atom])})")):
+                        skipped_ok = False
+        okrun = facts_ok and skipped_ok
     R5.decide(okrun, fkey(runf, "process-every-read-frame"), where(runf), "run(): process_message(src) is called iff read_message returned truthy",
               "run() no longer calls process_message exactly under the result of read_message")
 
@@ -356,8 +375,12 @@ def run(prog: Program, chk: Check):
     R8.decide(len(sz) == 1 and norm(sz[0].value) == "ctypes.sizeof(self.header_cls)", fkey(init, "header_size"), where(init), "header_size = sizeof(configured header class)",
               "self.header_size is not ctypes.sizeof(self.header_cls)")
     rdm = prog.func(MGR, "MessageManager.read_message")
-    hrd = [c for c in calls_in(rdm.node) if is_method_call(c, "recv_into") and c.args and norm(c.args[0]) in ("self.header_buffer", "self.header_view")]
-    R8.decide(len(hrd) == 1 and len(hrd[0].args) >= 2 and norm(hrd[0].args[1]) == "self.header_size" and any(norm(a).endswith("MSG_WAITALL") for a in hrd[0].args), fkey(rdm, "header-read-size"), where(rdm),
+    # the receive itself, or a receive helper that is handed the header buffer and the size (how the helper completes the read is C03's concern)
+    hrd = [c for c in calls_in(rdm.node) if isinstance(c.func, ast.Attribute) and any(norm(a) in ("self.header_buffer", "self.header_view") for a in c.args)]
+    okh = len(hrd) == 1 and any(norm(a) == "self.header_size" for a in hrd[0].args)
+    if okh and hrd[0].func.attr == "recv_into":
+        okh = norm(hrd[0].args[0]) in ("self.header_buffer", "self.header_view") and len(hrd[0].args) >= 2 and norm(hrd[0].args[1]) == "self.header_size" and any(norm(a).endswith("MSG_WAITALL") for a in hrd[0].args)
+    R8.decide(okh, fkey(rdm, "header-read-size"), where(rdm),
               "the header read requests exactly header_size bytes (MSG_WAITALL)", "read_message does not read exactly self.header_size header bytes")
     hbuf = [n for n in walk_local(init.node) if isinstance(n, ast.Assign) and norm(n.targets[0]) == "self.header_buffer"]
     R8.decide(len(hbuf) == 1 and norm(hbuf[0].value) == "bytearray(self.header_size)", fkey(init, "header_buffer"), where(init), "header receive buffer has header_size bytes", "header receive buffer is not bytearray(self.header_size)")
